@@ -275,18 +275,33 @@ impl Object {
     }
 
     /// Frees the memory address this pointer points to
-    /// Plus all addresses inside the array (if it is an array)
+    /// Plus all addresses inside the array (if it is an array), however deeply they are nested.
+    /// Every object is freed exactly once, also if it is referred to more than once or through a cycle.
     pub fn free_recursive(self) {
+        let mut seen = Vec::new();
+        self.collect_graph(&mut seen);
+        for o in seen {
+            o.free();
+        }
+    }
+
+    /// Adds this object and every heap-allocated object it refers to to `seen`, each of them once
+    fn collect_graph(self, seen: &mut Vec<Object>) {
+        if !self.is_heap_allocated()
+            || seen
+                .iter()
+                .any(|a| std::ptr::eq(a.as_ptr(), self.as_ptr()))
+        {
+            return;
+        }
+        seen.push(self);
+
         if self.tag() == Type::Array {
             // Safety: We've asserted the type
-            unsafe {
-                for o in self.as_vec_unchecked() {
-                    o.free();
-                }
+            for o in unsafe { self.as_vec_unchecked() } {
+                o.collect_graph(seen);
             }
         }
-
-        self.free();
     }
 }
 
